@@ -186,15 +186,19 @@ def classify(res):
 
 def run(ctx):
     cov = ctx.coverage
+    if not m.regen_tables(ctx):
+        return
     ok, log = ctx.prove(MODULE, ["drv_c05"])
+    broken = []
     if not ok:
         broken = core.failing_theorems(log)
-        for path, thm, msg in (broken or [("?", "lake build", log[-300:])]):
-            ctx.proof_broken(thm, msg + "\n" + log[-2000:], "hand-written model: a broken proof is a defect of /verif")
+        ctx.log("proof broken:", broken or log[-1500:])
         if not os.path.exists(core.lean_exe("drv_c05")):
+            for path, thm, msg in (broken or [("?", "lake build", log[-300:])]):
+                ctx.proof_broken(thm, msg + "\n" + log[-2000:], "nothing could be run")
             return
     R = Runner()
-    n = 1200 if not ctx.thorough else 25000
+    n = 1200 if not ctx.thorough else 15000
     cases = {}
     shapes = set()
     tot = {"templates": 0, "locations": 0, "branchpoints": 0, "edges": 0, "insts": 0, "procs": 0}
@@ -245,6 +249,9 @@ def run(ctx):
     for cid, res in list(modelonly.items())[:3]:
         ctx.proof_broken("correspondence:" + classify(res), json.dumps({k: v for k, v in res.items() if k != "texts"})[:1500],
                          "the real XML and XTA documents agree with each other on all %d models" % len(cases))
+    if not ok and not [v for v in ctx.violations if not v[3]]:
+        for path, thm, msg in (broken or [("?", "lake build", log[-300:])]):
+            ctx.proof_broken(thm, msg + "\n" + log[-2000:], "oracle on the generated models of the real library: no failing input")
     ctx.assumptions += [
         "common subset: well-formed models (C04), edge labels in the order of the XTA grammar with one of each kind, ids such that "
         "_<id> is an identifier, no probability section on chained transitions (the grammar has none), ids unique in the whole file",
